@@ -659,6 +659,20 @@ func Run(r *ev.Run) {
 		evalS := func(tag string, res ech.ResolveResult, desc any) {
 			for _, network := range []string{"tcp", "tcp4", "tcp6"} {
 				got, _ := collect(res, network, -1)
+				// what a target is handed is its own: consumers that each append to the lists of the target they hold do not
+				// find each other's values (see evalWorld)
+				var held []ech.Target
+				res.Targets(network)(func(t ech.Target) bool { held = append(held, t); return true })
+				var alpns [][]string
+				for i, t := range held {
+					alpns = append(alpns, append(t.ALPN, fmt.Sprint("appended-by-consumer-", i)))
+				}
+				for i := range held {
+					if a := alpns[i]; a[len(a)-1] != fmt.Sprint("appended-by-consumer-", i) {
+						r.Violation("impure:targets-share-spare-capacity:alpn", fmt.Sprintf("the consumer of target %d appended %q to the ALPN list it was handed (%d entries); after the consumers of the other targets did the same with theirs, its list ends in %q", i, fmt.Sprint("appended-by-consumer-", i), len(held[i].ALPN), a[len(a)-1]), desc)
+						break
+					}
+				}
 				w0, w1 := referenceOf(res, network, int(res.Port), false), referenceOf(res, network, int(res.Port), true)
 				oc := fmt.Sprintf("n=%d", len(got))
 				if !reflect.DeepEqual(got, w0) && !reflect.DeepEqual(got, w1) {
@@ -694,6 +708,20 @@ func Run(r *ev.Run) {
 					res.HTTPS = []dns.HTTPS{h}
 				}
 				evalS("special-address", res, fmt.Sprintf("address %d (%v) in position %d", i, ip, pos))
+			}
+		}
+		// ALPN lists of every size 0..40 (RFC 9460 sets no limit), with and without the default protocol, three targets per record
+		for n := 0; n <= 40; n++ {
+			for _, nodef := range []bool{false, true} {
+				var ids []string
+				for k := 0; k < n; k++ {
+					ids = append(ids, fmt.Sprint("proto-", k))
+				}
+				if n == 0 && nodef {
+					continue
+				}
+				h := dns.HTTPS{Priority: 1, ALPN: ids, NoDefaultALPN: nodef, ECH: []byte{0, 1, 0xec}}
+				evalS("alpn-size", ech.ResolveResult{Port: 443, Address: []net.IP{v4a, v4b, v6a}, HTTPS: []dns.HTTPS{h}}, fmt.Sprintf("a record with %d ALPN ids, no-default-alpn=%v, three addresses", n, nodef))
 			}
 		}
 		distinct := func(n int) []net.IP {
